@@ -253,6 +253,10 @@ class C13:
             tags = ev.get('tags', {})
             if tags.get('fit'):
                 ex.stats['oracle_sim'] += 1
+                clk = (rec.get('extra') or {}).get('clock') or []
+                if len(clk) >= 2:
+                    # simulated wall-clock time the fit believed it took
+                    ex.stats['sim_seconds'] += abs(clk[-1] - clk[0])
                 if rec['outcome'] == 'died':
                     ex.add(violation('C13.fit', ev['id'],
                                      'the interpreter died during a fit',
